@@ -176,8 +176,10 @@ func (fi *FnInfo) ownFactsAt(b *ssa.BasicBlock) []Fact {
 
 // impliedFacts: a check that was extracted into an in-repository helper still guards the
 // code after it. For every dominating fact of the form
-//     helper(args) [#i] == nil      (the helper returned no error), or
-//     helper(args) is true / false  (boolean helper),
+//
+//	helper(args) [#i] == nil      (the helper returned no error), or
+//	helper(args) is true / false  (boolean helper),
+//
 // the facts that hold on EVERY corresponding return of the helper (expressed in this
 // function's vocabulary through parameter substitution) hold here as well.
 func (fi *FnInfo) impliedFacts(own []Fact) []Fact {
@@ -520,10 +522,10 @@ func isNilConst(v ssa.Value) bool {
 }
 
 var errCtors = map[string]bool{
-	"fmt.Errorf":                    true,
-	"errors.New":                    true,
-	"cosmossdk.io/errors.Register":  true,
-	"cosmossdk.io/errors.New":       true,
+	"fmt.Errorf":                           true,
+	"errors.New":                           true,
+	"cosmossdk.io/errors.Register":         true,
+	"cosmossdk.io/errors.New":              true,
 	"google.golang.org/grpc/status.Error":  true,
 	"google.golang.org/grpc/status.Errorf": true,
 }
